@@ -260,6 +260,13 @@ func (rs *rowStore) newMemStore(offsetsBySource common.OffsetsBySource) *memstor
 func (rs *rowStore) processInserts(ms *memstore, stop <-chan interface{}) {
 	offsetsBySource := ms.offsetsBySource
 
+	if rs.storedFieldsDiffer() {
+		// the table was altered while the database was down: rewrite the file
+		// with the current fields right away, like an alteration at run time
+		// does, so that the data of removed fields does not survive on disk
+		ms, _ = rs.processFlush(ms, false)
+	}
+
 	flushInterval := rs.opts.maxFlushLatency
 	flushTimer := time.NewTimer(flushInterval)
 	rs.t.log.Debugf("Will flush after %v", flushInterval)
@@ -350,6 +357,29 @@ func (rs *rowStore) processInserts(ms *memstore, stop <-chan interface{}) {
 			}
 		}
 	}
+}
+
+// storedFieldsDiffer reports whether the current filestore was written with
+// other fields than the table has now.
+func (rs *rowStore) storedFieldsDiffer() bool {
+	fs := rs.fileStore
+	if fs.filename == "" {
+		return false
+	}
+	file, err := os.OpenFile(fs.filename, os.O_RDONLY, 0)
+	if err != nil {
+		return false
+	}
+	defer file.Close()
+	_, storedFields, _, err := fs.info(snappy.NewReader(file))
+	if err != nil {
+		return false
+	}
+	fieldStrings := make([]string, 0, len(rs.fields))
+	for _, field := range rs.fields {
+		fieldStrings = append(fieldStrings, field.String())
+	}
+	return storedFields != strings.Join(fieldStrings, fieldsDelims[rs.t.versionFor(fs.filename)])
 }
 
 // safeUpdate applies an insert to the memstore. The table's expressions are
